@@ -233,7 +233,7 @@ type evidence struct {
 	Coverage    map[string]any `json:"coverage"`
 	Assumptions []string       `json:"assumptions"`
 	WallS       float64        `json:"wall_s"`
-	Violations  []any          `json:"violations"`
+	Violations  int            `json:"violations"`
 }
 
 func runProperty(repo, verif, prop, tier, replay string) int {
@@ -343,7 +343,7 @@ func runProperty(repo, verif, prop, tier, replay string) int {
 func writeBrokenEvidence(verif, prop, tier string, err error, d time.Duration) {
 	ev := evidence{PropertyID: prop, Tier: tier, Level: "other", WallS: d.Seconds(),
 		Coverage: map[string]any{"explanation": "checker could not decide: " + err.Error(), "obligations": 0, "discharged": 0},
-		Violations: []any{}, Assumptions: []string{}}
+		Violations: 0, Assumptions: []string{}}
 	b, _ := json.MarshalIndent(ev, "", " ")
 	os.MkdirAll(filepath.Join(verif, "evidence"), 0o755)
 	os.WriteFile(filepath.Join(verif, "evidence", prop+".json"), b, 0o644)
@@ -429,6 +429,7 @@ func writeEvidence(verif string, rep *Report, tier string, mres mutResult, varia
 		"mutators":              mres.list,
 		"build_variants":        variants,
 		"notes":                 rep.notes,
+		"violation_list":        vlist,
 		"files":                 rep.P.Files,
 		"source_functions":      len(rep.P.Funcs),
 		"effect_rounds":         rep.P.effects.rounds,
@@ -436,7 +437,7 @@ func writeEvidence(verif string, rep *Report, tier string, mres mutResult, varia
 		"checker_cmd":           fmt.Sprintf("/verif/check.sh %s %s", rep.Prop, tier),
 		"trusted_base":          []string{"go/types type checker", "golang.org/x/tools v0.29.0 go/ssa builder", "external contract table (DESIGN.md Appendix A)", "fxamacker/cbor v2.5.0 behaviour as stated in assumptions A1-A7"},
 	}
-	ev := evidence{PropertyID: rep.Prop, Tier: tier, Seed: 0, Level: "other", Coverage: cov, Assumptions: as, WallS: d.Seconds(), Violations: vlist}
+	ev := evidence{PropertyID: rep.Prop, Tier: tier, Seed: 0, Level: "other", Coverage: cov, Assumptions: as, WallS: d.Seconds(), Violations: len(vlist)}
 	b, err := json.MarshalIndent(ev, "", " ")
 	if err != nil {
 		fmt.Println("CHECKER-ERROR: evidence:", err)
